@@ -139,6 +139,24 @@ ADDED3 = {
 }
 for k, v in ADDED3.items():
     CHECKS[k]["text"] += v
+ADDED4 = {
+ "C02": " Round 4: whether the prefix is prepended is decided from the input and the requested network's own two prefixes only.",
+ "C03": " Round 4: a character outside the bech32 charset is refused on the spot (the not-found edge reaches no accepting return).",
+ "C04": " Round 4: no exported method of ExtendedKey returns a reference into the key's own storage; append-style library helpers count as writes into their first argument.",
+ "C05": " Round 4: NewExtendedKey stores every argument in its field unchanged.",
+ "C06": " Round 4: nothing writes the key object the key parser returned before DecodeWIF hands it out.",
+ "C07": " Round 4: every index, slice, division and shift reachable from the base58 / bech32 decoders is proved in range (the panic-freedom obligations of C08, filed here too).",
+ "C10": " Round 4: every exit of the matcher that may answer false comes after the input loop; a condition the flag rule cannot evaluate is taken against the insertion where BIP37 demands it.",
+ "C11": " Round 4: every root-returning exit of ExtractMatches comes after the flag-driven traversal.",
+ "C12": " Round 4: the height loop is left only when the level is one node wide.",
+ "C13": " Round 4: no exported method of gcs.Filter writes its arguments or returns the filter's own storage; the query methods are proved panic-free.",
+ "C14": " Round 4: the From* constructors refuse for read errors and the bounds on N and P only; the stored filter data is the bit writer's Bytes().",
+ "C16": " Round 4: the accessor of a caller-fillable slice memo tests its length, not its nil-ness.",
+ "C18": " Round 4: a path through InPlaceSort that skips a sort must know that list has fewer than two entries.",
+ "C20": " Round 4: no exported method of gcs.Filter writes memory reachable from its arguments or returns memory reachable from the receiver.",
+}
+for k, v in ADDED4.items():
+    CHECKS[k]["text"] += v
 CHECKS["C08"]["text"] = CHECKS["C08"]["text"].replace("For all 73 in-repo functions", "For all in-repo functions").replace("(5 named exceptions, each with a premise the prover still checks)", "(named exceptions, each with a premise the prover still checks)")
 
 NA_REASON = {
